@@ -72,6 +72,7 @@ class Pipe:
         self.recs = deque()        # undelivered record remainders (bytearray)
         self.nrec = 0              # records written by the sender
         self.written = 0
+        self.written_fwd = 0       # bytes put into the pipe (after the MITM)
         self.delivered = 0
         self.chunks = 0
         self.eof_pending = False   # deliver EOF after the buffer drains
@@ -87,7 +88,7 @@ class Pipe:
 
     @property
     def avail(self):
-        return sum(len(r) for r in self.recs)
+        return self.written_fwd - self.delivered
 
     def push(self, data, raw=False):
         """Called for each record the sender wrote"""
@@ -115,6 +116,7 @@ class Pipe:
         for rec in out:
             if rec:
                 self.recs.append(bytearray(rec))
+                self.written_fwd += len(rec)
 
         self.kick()
 
@@ -125,7 +127,12 @@ class Pipe:
             self.recs.appendleft(bytearray(data))
         else:
             self.recs.append(bytearray(data))
+        self.written_fwd += len(data)
         self.kick()
+
+    def drop_all(self):
+        self.recs.clear()
+        self.written_fwd = self.delivered
 
     def kick(self):
         if not self._scheduled and not self.held:
@@ -151,7 +158,7 @@ class Pipe:
 
         if self.recs:
             if rx is None or rx.closed:
-                self.recs.clear()
+                self.drop_all()
                 return
 
             if rx.read_paused:
@@ -203,7 +210,7 @@ class Pipe:
         """Drop undelivered bytes; nothing more gets through"""
 
         self.cut = True
-        self.recs.clear()
+        self.drop_all()
 
 
 class MemTransport:
@@ -270,7 +277,7 @@ class MemTransport:
         if self.closed:
             return
         self.closed = True
-        self.inp.recs.clear()
+        self.inp.drop_all()
         self.lost_calls += 1
         if self.protocol is not None:
             self.protocol.connection_lost(exc)
@@ -361,7 +368,7 @@ class Link:
         else:
             p = self.pipe(how[:3])
             if how.endswith('!'):
-                p.recs.clear()
+                p.drop_all()
             p.send_eof()
 
     @property
